@@ -282,6 +282,20 @@ func runC11(e *Engine, g G, o RunOpt) RunInfo {
 					return w.Client.Send(stanza.Message{Attrs: stanza.Attrs{Id: id, To: "peer@" + SimDomain}, Body: "held"})
 				})
 			}
+			if err == nil && conn.Established == "bound" && !conn.Enabled {
+				// a session without stream management: what is sent on it is not held, and in particular
+				// not added to what is still held for a stream-managed session that may be resumed later
+				var heldNow []string
+				if s := w.Client.Session; s != nil && s.SMState.UnAckQueue != nil {
+					for _, u := range s.SMState.UnAckQueue.Uslice {
+						heldNow = append(heldNow, u.Stz)
+					}
+				}
+				if len(heldNow) > len(heldBefore) {
+					e.Violate("C11", "stanzas-of-unmanaged-session-held", "connection #%d has no stream management, yet %d stanzas sent on it were added to the held queue (before %s, now %s)", ci, len(heldNow)-len(heldBefore), shortStz(heldBefore), shortStz(heldNow))
+				}
+				e.Probe("c11.unmanaged_session")
+			}
 			cut := int64(in.Len())
 			if c.CutInside && c.Inbound > 0 {
 				cut -= 5
